@@ -20,6 +20,10 @@ Transition system:
   `cspawn|<c>|<p>|<k>` (after the `ctask` lines): task c is created by chunk k of the edit_state body of task p → `ok`
   `crun|<t>` `ccancel|<t>` → `ok <sys>` | `disabled`     `cserial|<t,t,..>` → `<store>`
   (in `<sys>` a task that has not been created yet shows as `U`)
+  `cdur|<t>|<d,d,..>` (after the `ctask` lines): the awaits inside the edit_state body of task t take d seconds → `ok`
+  `ctick|<d>` d seconds pass → `ok <sys> now=<seconds since the start>`
+  `cready` → `ready <t,t,..>`: the tasks whose next section can run now (a task asleep at an await of its body,
+  queued behind a held lock, ended or not created yet cannot)
 -/
 namespace Drv.StateStore
 
@@ -175,8 +179,8 @@ inductive Machine where
   | spec (s : Spec)
   | mem (m : Mem)
   | sql (s : Sql)
-  | cmem (prog : List COp) (sp : List (Nat × Nat × Nat)) (init : Mem) (s : SpSys Mem)
-  | csql (prog : List COp) (sp : List (Nat × Nat × Nat)) (init : Sql) (s : SpSys Sql)
+  | cmem (prog : List COp) (sp : List (Nat × Nat × Nat)) (dur : List (Nat × List Nat)) (init : Mem) (s : TSys Mem)
+  | csql (prog : List COp) (sp : List (Nat × Nat × Nat)) (dur : List (Nat × List Nat)) (init : Sql) (s : TSys Sql)
 
 structure St where
   m : Machine := .none
@@ -201,6 +205,15 @@ def showNats (xs : List Nat) : String := ",".intercalate (xs.map toString)
 
 /-- `(child, parent, chunk)` triples as a `Spawn` map (the first entry of a child counts) -/
 def spOf (l : List (Nat × Nat × Nat)) : Spawn := fun c => (l.find? fun e => e.1 == c).map (·.2)
+
+/-- `(task, durations of its awaits)` pairs as a `Durs` map (the first entry of a task counts; default 0) -/
+def durOf (l : List (Nat × List Nat)) : Durs := fun t k =>
+  match l.find? fun e => e.1 == t with
+  | some e => e.2.getD k 0
+  | none => 0
+
+def readyOf {σ : Type} (B : Backend σ) (prog : List COp) (sp : Spawn) (dur : Durs) (pat : COp → Option Nat) (s : TSys σ) : List Nat :=
+  (List.range prog.length).filter fun t => (TSys.exec B prog sp dur pat s (.act (.run t))).isSome
 
 def showSys {σ : Type} (showStore : σ → String) (prog : List COp) (sp : Spawn) (ss : SpSys σ) : String :=
   let s := ss.sys
@@ -240,53 +253,78 @@ def step (st : St) (line : String) : St × String :=
         if be == "mem" then
           let m0 := Mem.init sc ty
           let m1 := match io with | some d => (Mem.step m0 (.setState .same d)).1 | none => m0
-          ({ m := .cmem [] [] m1 (SpSys.init m1 0), sc := sc, ty := ty }, "ok")
+          ({ m := .cmem [] [] [] m1 (TSys.init m1 0), sc := sc, ty := ty }, "ok")
         else if be == "sql" then
           let s0 := Sql.init sc ty
           let s1 := match io with | some d => (Sql.step s0 (.setState .same d)).1 | none => s0
-          ({ m := .csql [] [] s1 (SpSys.init s1 0), sc := sc, ty := ty }, "ok")
+          ({ m := .csql [] [] [] s1 (TSys.init s1 0), sc := sc, ty := ty }, "ok")
         else (st, "bad-op")
     | _, _ => (st, "bad-op")
   | "ctask" :: rest =>
     match parseCOp? st.sc st.ty rest, st.m with
-    | some op, .cmem prog sp ini _ => let p := prog ++ [op]; ({ st with m := .cmem p sp ini (SpSys.init ini p.length) }, "ok")
-    | some op, .csql prog sp ini _ => let p := prog ++ [op]; ({ st with m := .csql p sp ini (SpSys.init ini p.length) }, "ok")
+    | some op, .cmem prog sp du ini _ => let p := prog ++ [op]; ({ st with m := .cmem p sp du ini (TSys.init ini p.length) }, "ok")
+    | some op, .csql prog sp du ini _ => let p := prog ++ [op]; ({ st with m := .csql p sp du ini (TSys.init ini p.length) }, "ok")
     | _, _ => (st, "bad-op")
   | ["cspawn", cs, ps, ks] =>
     match parseNat? cs, parseNat? ps, parseNat? ks, st.m with
-    | some c, some p, some k, .cmem prog sp ini _ =>
+    | some c, some p, some k, .cmem prog sp du ini _ =>
       if sp.any (fun e => e.1 == c) then (st, "bad-op")
-      else ({ st with m := .cmem prog (sp ++ [(c, p, k)]) ini (SpSys.init ini prog.length) }, "ok")
-    | some c, some p, some k, .csql prog sp ini _ =>
+      else ({ st with m := .cmem prog (sp ++ [(c, p, k)]) du ini (TSys.init ini prog.length) }, "ok")
+    | some c, some p, some k, .csql prog sp du ini _ =>
       if sp.any (fun e => e.1 == c) then (st, "bad-op")
-      else ({ st with m := .csql prog (sp ++ [(c, p, k)]) ini (SpSys.init ini prog.length) }, "ok")
+      else ({ st with m := .csql prog (sp ++ [(c, p, k)]) du ini (TSys.init ini prog.length) }, "ok")
     | _, _, _, _ => (st, "bad-op")
+  | ["cdur", ts, ds] =>
+    match parseNat? ts, parseNats? ds, st.m with
+    | some t, some d, .cmem prog sp du ini _ =>
+      if du.any (fun e => e.1 == t) then (st, "bad-op")
+      else ({ st with m := .cmem prog sp (du ++ [(t, d)]) ini (TSys.init ini prog.length) }, "ok")
+    | some t, some d, .csql prog sp du ini _ =>
+      if du.any (fun e => e.1 == t) then (st, "bad-op")
+      else ({ st with m := .csql prog sp (du ++ [(t, d)]) ini (TSys.init ini prog.length) }, "ok")
+    | _, _, _ => (st, "bad-op")
   | ["crun", ts] =>
     match parseNat? ts, st.m with
-    | some t, .cmem prog sp ini s =>
-      match SpSys.exec memBackend prog (spOf sp) s (.run t) with
-      | some s' => ({ st with m := .cmem prog sp ini s' }, "ok " ++ showSys showMemStore prog (spOf sp) s')
+    | some t, .cmem prog sp du ini s =>
+      match TSys.exec memBackend prog (spOf sp) (durOf du) memPatience s (.act (.run t)) with
+      | some s' => ({ st with m := .cmem prog sp du ini s' }, "ok " ++ showSys showMemStore prog (spOf sp) s'.sp)
       | none => (st, "disabled")
-    | some t, .csql prog sp ini s =>
-      match SpSys.exec sqlBackend prog (spOf sp) s (.run t) with
-      | some s' => ({ st with m := .csql prog sp ini s' }, "ok " ++ showSys showSqlStore prog (spOf sp) s')
+    | some t, .csql prog sp du ini s =>
+      match TSys.exec sqlBackend prog (spOf sp) (durOf du) sqlPatience s (.act (.run t)) with
+      | some s' => ({ st with m := .csql prog sp du ini s' }, "ok " ++ showSys showSqlStore prog (spOf sp) s'.sp)
       | none => (st, "disabled")
     | _, _ => (st, "bad-op")
   | ["ccancel", ts] =>
     match parseNat? ts, st.m with
-    | some t, .cmem prog sp ini s =>
-      match SpSys.exec memBackend prog (spOf sp) s (.cancel t) with
-      | some s' => ({ st with m := .cmem prog sp ini s' }, "ok " ++ showSys showMemStore prog (spOf sp) s')
+    | some t, .cmem prog sp du ini s =>
+      match TSys.exec memBackend prog (spOf sp) (durOf du) memPatience s (.act (.cancel t)) with
+      | some s' => ({ st with m := .cmem prog sp du ini s' }, "ok " ++ showSys showMemStore prog (spOf sp) s'.sp)
       | none => (st, "disabled")
-    | some t, .csql prog sp ini s =>
-      match SpSys.exec sqlBackend prog (spOf sp) s (.cancel t) with
-      | some s' => ({ st with m := .csql prog sp ini s' }, "ok " ++ showSys showSqlStore prog (spOf sp) s')
+    | some t, .csql prog sp du ini s =>
+      match TSys.exec sqlBackend prog (spOf sp) (durOf du) sqlPatience s (.act (.cancel t)) with
+      | some s' => ({ st with m := .csql prog sp du ini s' }, "ok " ++ showSys showSqlStore prog (spOf sp) s'.sp)
       | none => (st, "disabled")
     | _, _ => (st, "bad-op")
+  | ["ctick", ds] =>
+    match parseNat? ds, st.m with
+    | some d, .cmem prog sp du ini s =>
+      match TSys.exec memBackend prog (spOf sp) (durOf du) memPatience s (.tick d) with
+      | some s' => ({ st with m := .cmem prog sp du ini s' }, s!"ok {showSys showMemStore prog (spOf sp) s'.sp} now={s'.now}")
+      | none => (st, "disabled")
+    | some d, .csql prog sp du ini s =>
+      match TSys.exec sqlBackend prog (spOf sp) (durOf du) sqlPatience s (.tick d) with
+      | some s' => ({ st with m := .csql prog sp du ini s' }, s!"ok {showSys showSqlStore prog (spOf sp) s'.sp} now={s'.now}")
+      | none => (st, "disabled")
+    | _, _ => (st, "bad-op")
+  | ["cready"] =>
+    match st.m with
+    | .cmem prog sp du _ s => (st, "ready " ++ showNats (readyOf memBackend prog (spOf sp) (durOf du) memPatience s))
+    | .csql prog sp du _ s => (st, "ready " ++ showNats (readyOf sqlBackend prog (spOf sp) (durOf du) sqlPatience s))
+    | _ => (st, "bad-op")
   | ["cserial", os] =>
     match parseNats? os, st.m with
-    | some order, .cmem prog _ ini _ => (st, showMemStore (serial memBackend prog ini order))
-    | some order, .csql prog _ ini _ => (st, showSqlStore (serial sqlBackend prog ini order))
+    | some order, .cmem prog _ _ ini _ => (st, showMemStore (serial memBackend prog ini order))
+    | some order, .csql prog _ _ ini _ => (st, showSqlStore (serial sqlBackend prog ini order))
     | _, _ => (st, "bad-op")
   | _ =>
     match st.m with
